@@ -47,6 +47,20 @@ type Ctx struct {
 	perSig      map[string]int
 	Deadline    time.Time `json:"-"`
 	Tier        string    `json:"-"`
+	sub         *int64
+}
+
+// Tick marks the start of the next case inside the current unit, so that a crash of the
+// worker process can be attributed to a single case (see SubDescriber).
+func (c *Ctx) Tick() {
+	if c.sub != nil {
+		*c.sub++
+	}
+}
+
+// SubDescriber is implemented by jobs that can name the n-th case (1-based Tick count) of a unit.
+type SubDescriber interface {
+	DescribeSub(unit, tick int) map[string]interface{}
 }
 
 func newCtx() *Ctx {
@@ -161,7 +175,8 @@ func WorkerMain(args []string) int {
 		fmt.Fprintln(os.Stderr, "unknown check", id)
 		return 2
 	}
-	prog := mapProgress(progFile)
+	progArr := mapProgress(progFile)
+	prog := &progArr[0]
 	job := ck.New(tier)
 	n := job.NumUnits()
 	out := bufio.NewWriterSize(os.Stdout, 1<<16)
@@ -171,6 +186,7 @@ func WorkerMain(args []string) int {
 	if dl > 0 {
 		ctx.Deadline = time.Unix(dl, 0)
 	}
+	ctx.sub = &progArr[1]
 	lastFlush := time.Now()
 	flush := func(next int, done, deadline bool) {
 		enc.Encode(flushMsg{Ctx: ctx, Next: next, Done: done, Deadline: deadline})
@@ -178,6 +194,7 @@ func WorkerMain(args []string) int {
 		dlKeep, tierKeep := ctx.Deadline, ctx.Tier
 		ctx = newCtx()
 		ctx.Deadline, ctx.Tier = dlKeep, tierKeep
+		ctx.sub = &progArr[1]
 		lastFlush = time.Now()
 	}
 	start := from
@@ -193,6 +210,7 @@ func WorkerMain(args []string) int {
 			flush(i, true, true)
 			return 0
 		}
+		progArr[1] = 0
 		atomic.StoreInt64(prog, int64(i))
 		job.RunUnit(i, ctx)
 		if time.Since(lastFlush) > 700*time.Millisecond {
@@ -205,17 +223,17 @@ func WorkerMain(args []string) int {
 	return 0
 }
 
-func mapProgress(file string) *int64 {
+func mapProgress(file string) *[2]int64 {
 	f, err := os.OpenFile(file, os.O_RDWR, 0)
 	if err != nil {
 		panic(err)
 	}
 	defer f.Close()
-	b, err := syscall.Mmap(int(f.Fd()), 0, 8, syscall.PROT_READ|syscall.PROT_WRITE, syscall.MAP_SHARED)
+	b, err := syscall.Mmap(int(f.Fd()), 0, 16, syscall.PROT_READ|syscall.PROT_WRITE, syscall.MAP_SHARED)
 	if err != nil {
 		panic(err)
 	}
-	return (*int64)(unsafe.Pointer(&b[0]))
+	return (*[2]int64)(unsafe.Pointer(&b[0]))
 }
 
 // ---------------------------------------------------------------------------
@@ -349,8 +367,9 @@ func superviseShard(ck *Check, job Job, tier string, shard, nshards int, deadlin
 	crashes := 0
 	progFile := filepath.Join(tmp, fmt.Sprintf("prog-%d", shard))
 	for {
-		os.WriteFile(progFile, make([]byte, 8), 0600)
-		prog := mapProgress(progFile)
+		os.WriteFile(progFile, make([]byte, 16), 0600)
+		progArr := mapProgress(progFile)
+		prog := &progArr[0]
 		atomic.StoreInt64(prog, -1)
 		cmd := exec.Command(os.Args[0], "-worker", ck.ID, tier, strconv.Itoa(shard), strconv.Itoa(nshards),
 			strconv.Itoa(from), strconv.FormatInt(deadline.Unix(), 10), progFile, strings.Join(skip, ","))
@@ -368,7 +387,7 @@ func superviseShard(ck *Check, job Job, tier string, shard, nshards int, deadlin
 		stopWatch := make(chan struct{})
 		var hung int32
 		go func() {
-			last, lastChange := int64(-2), time.Now()
+			last, lastSub, lastChange := int64(-2), int64(-1), time.Now()
 			tk := time.NewTicker(500 * time.Millisecond)
 			defer tk.Stop()
 			for {
@@ -376,9 +395,9 @@ func superviseShard(ck *Check, job Job, tier string, shard, nshards int, deadlin
 				case <-stopWatch:
 					return
 				case <-tk.C:
-					cur := atomic.LoadInt64(prog)
-					if cur != last || cur < 0 {
-						last, lastChange = cur, time.Now()
+					cur, sub := atomic.LoadInt64(prog), atomic.LoadInt64(&progArr[1])
+					if cur != last || cur < 0 || sub != lastSub {
+						last, lastSub, lastChange = cur, sub, time.Now()
 					} else if time.Since(lastChange) > 60*time.Second {
 						atomic.StoreInt32(&hung, 1)
 						cmd.Process.Kill()
@@ -427,10 +446,21 @@ func superviseShard(ck *Check, job Job, tier string, shard, nshards int, deadlin
 			kind = "no return within 60 s"
 		}
 		cs := job.Describe(cur)
+		if sd, ok := job.(SubDescriber); ok {
+			if tick := int(atomic.LoadInt64(&progArr[1])); tick > 0 {
+				if d := sd.DescribeSub(cur, tick); d != nil {
+					cs = d
+				}
+			}
+		}
 		first := firstLine(stderr.String())
+		what := ""
+		if pth, ok := cs["path"].(string); ok {
+			what = fmt.Sprintf(" while processing %q", pth)
+		}
 		v := Violation{
 			Sig:    "crash:" + sigOf(cs),
-			Detail: fmt.Sprintf("%s in an isolated worker (%v): %s", kind, err, first),
+			Detail: fmt.Sprintf("%s in an isolated worker%s (%v): %s", kind, what, err, first),
 			Size:   0,
 			Case:   cs,
 		}
